@@ -18,6 +18,88 @@ def S(name, **meta):
     return T.sym(name, **meta)
 
 
+PRIVKEY = PKG + '.keys.PrivateKey'
+PUBKEY = PKG + '.keys.PublicKey'
+K_VALID = T.sym('k', type='bytes', len=32)      # the checks' valid parent scalar
+
+
+def _dummy_frame(facts=None):
+    from ..evalr import Frame
+    return Frame(None, {}, facts or Facts(), None, None, 0)
+
+
+def mk_priv(p, be, k):
+    """The PrivateKey object the class's own constructor builds for the (valid) scalar term k - whatever fields
+    the class has today; the checks never assume a layout."""
+    ev = Evaluator(p, be)
+    v, _ = ev.construct('keys.PrivateKey', [k], facts=Facts(closure([T.raw_op('VALID_SK', k)])))
+    nl = distinct_normal_leaves(v)
+    if len(nl) == 1 and T.tag(nl[0]) == 'obj':
+        return nl[0]
+    raise AnalysisError('mk_priv', 'PrivateKey(<valid scalar>) does not evaluate to one object: %s' % T.show(v, maxdepth=4))
+
+
+def mk_pub(p, be, P):
+    ev = Evaluator(p, be)
+    v, _ = ev.construct('keys.PublicKey', [P])
+    nl = distinct_normal_leaves(v)
+    if len(nl) == 1 and T.tag(nl[0]) == 'obj':
+        return nl[0]
+    raise AnalysisError('mk_pub', 'PublicKey(<point>) does not evaluate to one object: %s' % T.show(v, maxdepth=4))
+
+
+def mk_wallet(p, be, master, testnet, cls=None):
+    """The wallet object BaseWallet's own constructor builds on a node (whatever fields the class has today)."""
+    ev = Evaluator(p, be)
+    v, _ = ev.construct(cls or (PKG + '.base_wallet.BaseWallet'), [master, testnet])
+    nl = distinct_normal_leaves(v)
+    if len(nl) == 1 and T.tag(nl[0]) == 'obj':
+        return nl[0]
+    raise AnalysisError('mk_wallet', 'BaseWallet(<node>, <network>) does not evaluate to one object: %s' % T.show(v, maxdepth=4))
+
+
+def attr_of(ev, v, name, facts=None):
+    """Attribute read through the evaluator (properties are evaluated)."""
+    return ev.getattr(v, name, _dummy_frame(ev._with_domain(facts)))
+
+
+def pub_sec(ev, pub, compressed=True, facts=None):
+    v, _ = ev.call_function('keys.PublicKey.sec', [pub], {'compressed': T.const(compressed)}, facts=facts)
+    return v
+
+
+def same_priv(ob, ev, found, scalar, what, where=None, facts=None):
+    """Observational equality of a PrivateKey object: its class, bytes(key) and the encoding of key.K."""
+    ok = True
+    base = Facts(facts.items if isinstance(facts, Facts) else (facts or ()))
+    nl = normal_leaves(found)
+    ok &= bool(ob.require(len(nl) >= 1, what + ': a key object is returned', where))
+    for cs, leaf in nl:
+        fx = Facts(closure(list(base) + list(cs)))
+        ok &= bool(ob.require(T.tag(leaf) == 'obj' and leaf[1] == PRIVKEY, what + ': a PrivateKey object', where,
+                              found=T.show(leaf, maxdepth=2)))
+        b, _ = ev.call_function('keys.PrivateKey.__bytes__', [leaf], facts=fx)
+        ok &= bool(same_term(ob, b, scalar, what + ': bytes(key)', where))
+        K = attr_of(ev, leaf, 'K', fx)
+        ok &= bool(same_term(ob, pub_sec(ev, K, True, fx), T.sec(T.pt(scalar), T.TRUE), what + ': key.K is point(scalar)', where))
+    return ok
+
+
+def same_pub(ob, ev, found, P, what, where=None, facts=None):
+    ok = True
+    base = Facts(facts.items if isinstance(facts, Facts) else (facts or ()))
+    nl = normal_leaves(found)
+    ok &= bool(ob.require(len(nl) >= 1, what + ': a key object is returned', where))
+    for cs, leaf in nl:
+        fx = Facts(closure(list(base) + list(cs)))
+        ok &= bool(ob.require(T.tag(leaf) == 'obj' and leaf[1] == PUBKEY, what + ': a PublicKey object', where,
+                              found=T.show(leaf, maxdepth=2)))
+        for comp in (True, False):
+            ok &= bool(same_term(ob, pub_sec(ev, leaf, comp, fx), T.sec(P, T.const(comp)),
+                                 what + ': %scompressed encoding' % ('' if comp else 'un'), where))
+    return ok
+
+
 def node_term(cls, key, chain=None, depth=None, index=None, parent=T.NONE, testnet=None, ppf=T.NONE, tagname=''):
     return T.obj(cls, dict(
         key=key,
@@ -32,9 +114,10 @@ def node_term(cls, key, chain=None, depth=None, index=None, parent=T.NONE, testn
     ))
 
 
-def prv_node(layout='32', **kw):
-    """Symbolic PrvKeyNode.  layout '32': key is the 32-byte scalar; '33': 00 || scalar (parsed xprv)."""
-    k = S('k', type='bytes', len=32)
+def prv_node(layout='32', name='k', **kw):
+    """Symbolic PrvKeyNode.  layout '32': key is the 32-byte scalar; '33': 00 || scalar (parsed xprv).
+    The default scalar symbol `k` is a valid scalar (Evaluator.DOMAIN); any other name is an arbitrary 32-byte string."""
+    k = S(name, type='bytes', len=32)
     key = k if layout == '32' else T.cat(T.const(b'\x00'), k)
     return node_term(PRV, key, **kw), k
 
@@ -117,6 +200,18 @@ def closure(facts):
                 new += [T.lt(i, T.CURVE_N), T.not_(T.eq(T.const(0), i)), T.lt(T.const(0), i)]
             if T.is_op(f, 'LT') and f[2] == T.const(0):
                 new.append(T.not_(T.eq(T.const(0), f[3])))
+            # an explicit range check is as good as the library's: 32 bytes, 0 < int(x) < n
+            if T.is_op(f, 'LT') and f[3] == T.CURVE_N and T.is_op(f[2], 'INT') and f[2][3] == BIG:
+                x, ix = f[2][2], f[2]
+                low = (T.lt(T.const(0), ix) in out or T.not_(T.lt(ix, T.const(1))) in out
+                       or T.not_(T.eq(T.const(0), ix)) in out)
+                ln = T.length_of(x) == 32 or T.eq(T.const(32), T.len_(x)) in out
+                if low and ln:
+                    new.append(T.raw_op('VALID_SK', x))
+            elif T.is_op(f, 'LT') and f[3] == T.CURVE_N and T.type_of(f[2]) == 'int' and not T.is_const(f[2]):
+                ix = f[2]
+                if (T.lt(T.const(0), ix) in out or T.not_(T.lt(ix, T.const(1))) in out or T.not_(T.eq(T.const(0), ix)) in out):
+                    new.append(T.raw_op('VALID_SK', T.ser(ix, T.const(32), BIG)))
             for n in new:
                 if n not in out:
                     out.add(n)
@@ -138,6 +233,9 @@ def _split(t):
 def contradictory(known):
     """A closed fact set that contains a boolean term together with its negation."""
     return any(T.not_(x) in known for x in known)
+
+
+Evaluator.DOMAIN = tuple(closure([T.raw_op('VALID_SK', K_VALID)]))
 
 
 def known_at(facts, conds):
